@@ -118,7 +118,7 @@ func (c *RunCtx) Counters(m map[string]uint64) {
 // Violation records a violation of the property under check (or counts one of
 // another property).
 func (c *RunCtx) Violation(v VReport) {
-	if v.Prop != c.Prop {
+	if v.Prop != c.Prop && os.Getenv("VG_ALLPROPS") == "" {
 		if c.Rep.OtherProps == nil {
 			c.Rep.OtherProps = map[string]int64{}
 		}
